@@ -22,11 +22,11 @@ AbsView == <<cfg, A, B, last, nops>>
 NoCfg == [name |-> "none"]
 Scalar(z) == [shape |-> <<1, 1>>, vals |-> <<z>>]
 Lat(L, bc, mps, t, cells) == [name |-> "Chain", Lx |-> L, Ly |-> 1, bcx |-> bc, bcy |-> "open", mps |-> mps, uc |-> <<t>>, cells |-> cells]
-ConfigsQuick == {Lat(3, "open", "finite", "spin", 1), Lat(3, "open", "finite", "fermion", 1),
+ConfigsQuick == {Lat(4, "open", "finite", "spin", 1), Lat(3, "open", "finite", "fermion", 1),
                  Lat(2, "periodic", "infinite", "spin", 2), Lat(1, "periodic", "infinite", "spin", 4)}
 ConfigsOne == {Lat(3, "open", "finite", "fermion", 1)}
 ConfigsTwo == {Lat(3, "open", "finite", "spin", 1), Lat(2, "periodic", "infinite", "spin", 2)}
-ConfigsFull == ConfigsQuick \cup {Lat(4, "open", "finite", "spin", 1), Lat(4, "periodic", "finite", "fermion", 1),
+ConfigsFull == ConfigsQuick \cup {Lat(3, "open", "finite", "spin", 1), Lat(4, "periodic", "finite", "fermion", 1),
                                   Lat(2, "periodic", "infinite", "fermion", 2), Lat(2, "open", "finite", "boson1", 1)}
 
 Coup(z, o1, o2, dx, hc) == [kind |-> "coupling", s |-> Scalar(z), ops |-> <<<<o1, <<0, 0>>, 0>>, <<o2, <<dx, 0>>, 0>>>>, str |-> "auto", hc |-> hc]
@@ -115,17 +115,26 @@ UI(c, ds, dt) == LET terms == EvalTerms(AllTerms(c, ds, Len(ds))) IN UISum(c, te
 -----------------------------------------------------------------------------
 \* decls = <<>> once the slot no longer comes from a declaration list; mk: "all" = IdL/IdR known on every bond,
 \* "ends" = only at the two ends (max_range unknown) -- the same operator, fewer methods are applicable
-Slot(ds, m, mk) == [decls |-> ds, m |-> m, mk |-> mk]
-Empty == [decls |-> <<>>, m |-> <<>>, mk |-> "all"]
+\* max_range bookkeeping (attribute MPO.max_range: "maximum range of the terms, None for unknown"):
+\*   tr = range of the longest term of the operator,  rk = whether the MPO knows its range.
+\* Documented rule: an MPO built from W tensors / grids does not know its range, and unknown + anything = unknown.
+\* A conformant implementation reports None when rk = FALSE and, when rk = TRUE, None or a number >= tr
+\* (never a range shorter than the terms it contains: to_TermList, is_equal, is_hermitian rely on it).
+Slot(ds, m, mk, rk, tr) == [decls |-> ds, m |-> m, mk |-> mk, rk |-> rk, tr |-> tr]
+Empty == [decls |-> <<>>, m |-> <<>>, mk |-> "all", rk |-> TRUE, tr |-> 0]
+MaxTermRange(c, ds) == LET ts == EvalTerms(AllTerms(c, ds, Len(ds)))
+                       IN IF Len(ts) = 0 THEN 0 ELSE IMaxFn([n \in 1..Len(ts) |-> TermRange(ts[n])], Len(ts))
+IMax2(a, b) == IF a >= b THEN a ELSE b
 
 Get(s) == IF s = "A" THEN A ELSE B
-AllMarkers(s) == Get(s).mk = "all"
+AllMarkers(s) == Get(s).mk \in {"all", "wt"}
 Filled(s) == Get(s).m # <<>>
 
 Init == cfg = NoCfg /\ A = Empty /\ B = Empty /\ last = [op |-> "init"] /\ nops = 0 /\ hist = <<>>
 
 Obs(a, b) == [A |-> IF a.m = <<>> THEN [n |-> 0, e |-> <<>>] ELSE Sparse(a.m),
-              B |-> IF b.m = <<>> THEN [n |-> 0, e |-> <<>>] ELSE Sparse(b.m)]
+              B |-> IF b.m = <<>> THEN [n |-> 0, e |-> <<>>] ELSE Sparse(b.m),
+              rng |-> [A |-> [rk |-> a.rk, tr |-> a.tr], B |-> [rk |-> b.rk, tr |-> b.tr]]]
 Step(l, a, b) == /\ nops < MaxOps /\ nops' = nops + 1
                  /\ A' = a /\ B' = b /\ last' = l
                  /\ hist' = Append(hist, [l |-> l, o |-> Obs(a, b)])
@@ -134,9 +143,12 @@ SetSlot(s, v, l) == IF s = "A" THEN Step(l, v, B) ELSE Step(l, A, v)
 
 Setup == cfg = NoCfg /\ \E c \in Configs : cfg' = c /\ UNCHANGED <<A, B, last, nops, hist>>
 
-\* build an MPO from a declaration list; markers: "all" = IdL/IdR known on every bond, "ends" = only at the ends
-Make == cfg # NoCfg /\ \E s \in {"A", "B"}, ds \in Catalogue(cfg), mk \in {"all", "ends"} :
-            SetSlot(s, Slot(ds, OpOf(cfg, ds), mk), [op |-> "make", s |-> s, decls |-> ds, markers |-> mk])
+\* build an MPO from a declaration list; markers: "all" = IdL/IdR known on every bond and the range known (built from
+\* terms), "wt" = the same W tensors handed to the MPO constructor with all markers but max_range = None,
+\* "ends" = markers only at the two ends and max_range = None
+Make == cfg # NoCfg /\ \E s \in {"A", "B"}, ds \in Catalogue(cfg) : \E mk \in (IF s = "A" THEN {"all", "ends"} ELSE {"all", "wt"}) :
+            SetSlot(s, Slot(ds, OpOf(cfg, ds), mk, mk = "all", MaxTermRange(cfg, ds)),
+                    [op |-> "make", s |-> s, decls |-> ds, markers |-> mk])
 
 \* both slots at once (so that binary operations are reached early in the exhaustive run)
 PairOps(c) ==
@@ -150,18 +162,19 @@ PairOps(c) ==
         nonh == IF t = "spin" THEN <<Coup(<<1, 2>>, "Sp", "Sm", 1, FALSE)>> ELSE IF t = "fermion" THEN <<Coup(<<0, 1>>, "Cd", "C", far, FALSE)>>
                 ELSE <<Coup(<<0, 1>>, "Bd", "B", 1, FALSE)>>
     IN {base, base \o <<lr(<<1, 0>>)>>, base \o <<lr(<<2, 0>>)>>, nonh}
-MakePair == cfg # NoCfg /\ A = Empty /\ B = Empty /\ \E da, db \in PairOps(cfg) :
-    Step([op |-> "make_pair", declsA |-> da, declsB |-> db], Slot(da, OpOf(cfg, da), "all"), Slot(db, OpOf(cfg, db), "all"))
+MakePair == cfg # NoCfg /\ A = Empty /\ B = Empty /\ \E da, db \in PairOps(cfg), mkB \in {"all", "wt"} :
+    Step([op |-> "make_pair", declsA |-> da, declsB |-> db, markersB |-> mkB],
+         Slot(da, OpOf(cfg, da), "all", TRUE, MaxTermRange(cfg, da)), Slot(db, OpOf(cfg, db), mkB, mkB = "all", MaxTermRange(cfg, db)))
 
 Add == Filled("A") /\ Filled("B") /\ AllMarkers("A") /\ AllMarkers("B") /\ \E s \in {"A", "B"} :
-           SetSlot(s, Slot(<<>>, EvalMat(MAdd(A.m, B.m)), "all"), [op |-> "add", s |-> s])
+           SetSlot(s, Slot(<<>>, EvalMat(MAdd(A.m, B.m)), "all", A.rk /\ B.rk, IMax2(A.tr, B.tr)), [op |-> "add", s |-> s])
 
-Dagger == \E s \in {"A", "B"} : Filled(s) /\ SetSlot(s, Slot(<<>>, EvalMat(MDagger(Get(s).m)), Get(s).mk), [op |-> "dagger", s |-> s])
+Dagger == \E s \in {"A", "B"} : Filled(s) /\ SetSlot(s, Slot(<<>>, EvalMat(MDagger(Get(s).m)), Get(s).mk, Get(s).rk, Get(s).tr), [op |-> "dagger", s |-> s])
 
 PlusIdentity == cfg # NoCfg /\ ~Infinite(cfg) /\ \E s \in {"A", "B"}, al \in {<<0, 0>>, <<1, 0>>, <<0, -2>>}, be \in {<<1, 0>>, <<0, 1>>, <<-2, 0>>} :
     \* the result is a valid MPO for measurements and apply, but its IdL -> IdL entry is scaled (documented structure
     \* [beta*1  beta*C  alpha*1+beta*D]): marked "scaled"; only plus_identity itself is applied to it again
-    Filled(s) /\ Get(s).mk \in {"all", "scaled"} /\ SetSlot(s, Slot(<<>>, EvalMat(MAdd(MScale(al, MId(D(cfg))), MScale(be, Get(s).m))), "scaled"),
+    Filled(s) /\ Get(s).mk \in {"all", "scaled"} /\ SetSlot(s, Slot(<<>>, EvalMat(MAdd(MScale(al, MId(D(cfg))), MScale(be, Get(s).m))), "scaled", Get(s).rk, Get(s).tr),
                          [op |-> "plus_identity", s |-> s, alpha |-> al, beta |-> be])
 
 \* representation changes: the operator stays the same
@@ -169,7 +182,12 @@ Represent == \E s \in {"A", "B"}, how \in {"sort_legcharges", "group_sites", "te
     /\ Filled(s) /\ (how = "group_sites" => NCell(cfg) % 2 = 0) /\ (how # "copy" => AllMarkers(s))
     \* to_TermList(start = all sites, in ascending resp. descending order) followed by from_term_list
     /\ (how \in {"termlist_roundtrip", "termlist_roundtrip_rev"} => cfg.uc[1] = "spin")
-    /\ SetSlot(s, [Get(s) EXCEPT !.decls = IF how = "copy" THEN @ ELSE <<>>], [op |-> how, s |-> s])
+    \* an MPO rebuilt from its term list knows its range again; sort_legcharges keeps the markers but we treat the result
+    \* like an MPO with all markers known
+    /\ SetSlot(s, [Get(s) EXCEPT !.decls = IF how = "copy" THEN @ ELSE <<>>,
+                                 !.rk = IF how \in {"termlist_roundtrip", "termlist_roundtrip_rev"} THEN TRUE ELSE @,
+                                 !.mk = IF how \in {"termlist_roundtrip", "termlist_roundtrip_rev"} THEN "all" ELSE @],
+               [op |-> how, s |-> s])
 
 QHermitian == \E s \in {"A", "B"} : Filled(s) /\ Step([op |-> "is_hermitian", s |-> s, res |-> MIsHermitian(Get(s).m)], A, B)
 \* equality is symmetric: A.is_equal(B) and B.is_equal(A) both have to return this truth value
@@ -189,13 +207,27 @@ QExpect == \E s \in {"A", "B"} : Filled(s) /\ ~Infinite(cfg) /\ \E st \in StateC
 ApplyStates(c) == {<<<<2, GOne>>>>, <<<<0, GOne>>, <<D(c) - 1, GOne>>>>,
                    <<<<1, GOne>>, <<2, <<0, 2>>>>, <<4 % D(c), <<-1, 0>>>>>>}
 \* compression methods with the option combine (legs combined into pipes inside the sweep engine: must not matter)
-ApplyMethods == {<<"naive", FALSE>>, <<"SVD", FALSE>>, <<"zip_up", FALSE>>, <<"variational", FALSE>>, <<"variational", TRUE>>,
-                 <<"variationalQR", FALSE>>, <<"variationalQR", TRUE>>}
+\* <<method, combine, chi_max (0: no truncation requested), m_temp>>
+ApplyMethods == {<<"naive", FALSE, 0, 1>>, <<"SVD", FALSE, 0, 1>>, <<"zip_up", FALSE, 0, 1>>, <<"variational", FALSE, 0, 1>>,
+                 <<"variational", TRUE, 0, 1>>, <<"variationalQR", FALSE, 0, 1>>, <<"variationalQR", TRUE, 0, 1>>,
+                 \* genuine truncation: the result is an approximation, the reported truncation error has to account for it
+                 <<"SVD", FALSE, 1, 1>>, <<"zip_up", FALSE, 2, 1>>, <<"zip_up", FALSE, 1, 2>>}
+\* reduced density matrix (Gram matrix) of the vector w for the cut between site b-1 and b: exact data for the
+\* Eckart-Young bound on what any result of bond dimension chi can achieve, and what must have been discarded
+GramOf(c, w, b) ==
+    LET dims == DimsOf(TypesOf(c))
+        dl == IProdFn([i \in 1..b |-> dims[i]], b)
+        dr == D(c) \div dl
+    IN TLCEval([r \in 1..dl |-> TLCEval([q \in 1..dl |->
+           GSumFn([k \in 1..dr |-> GMul(w[(r - 1) * dr + k], GConj(w[(q - 1) * dr + k]))], dr)])])
 QApply == \E s \in {"A", "B"} : Filled(s) /\ ~Infinite(cfg) /\ \E st \in ApplyStates(cfg), mc \in ApplyMethods :
     LET v == VecOf(cfg, st)
         meth == mc[1]
+        w == TLCEval(MVec(Get(s).m, v))
     IN (meth \in {"variational", "variationalQR"} => NW(cfg) >= 3) /\      \* the two-site sweep engine needs more than two sites
-       Step([op |-> "apply", s |-> s, state |-> st, method |-> meth, combine |-> mc[2], den |-> VNorm2(v), w |-> TLCEval(MVec(Get(s).m, v))], A, B)
+       (mc[3] > 0 => NW(cfg) >= (IF meth = "zip_up" THEN 4 ELSE 3)) /\
+       Step([op |-> "apply", s |-> s, state |-> st, method |-> meth, combine |-> mc[2], chi |-> mc[3], m_temp |-> mc[4],
+             gram |-> IF mc[3] = 0 THEN <<>> ELSE [b \in 1..(NW(cfg) - 1) |-> GramOf(cfg, w, b)], den |-> VNorm2(v), w |-> w], A, B)
 
 \* propagators (only for slots that still know their terms)
 QUI == \E s \in {"A", "B"} : Filled(s) /\ AllMarkers(s) /\ Get(s).decls # <<>> /\ ~Infinite(cfg) /\ \E dt \in {<<0, 0>>, <<1, 0>>, <<0, -1>>, <<2, 1>>} :
